@@ -113,6 +113,11 @@ func (s *BaseNodeService) ProcessMessage(message storage.Message) error {
 	defer s.processMu.Unlock()
 
 	if fsm.State(message.Event) == types.ReinitDKG {
+		// its hash is confirmed by all operators out of band: a reinit message that only one node
+		// sees cannot be (only deals are addressed to a single participant)
+		if message.RecipientAddr != "" {
+			return fmt.Errorf("reinit message is addressed to %s alone", message.RecipientAddr)
+		}
 		if err := s.reinitDKG(message); err != nil {
 			return fmt.Errorf("failed to reinitDKG")
 		}
